@@ -417,6 +417,7 @@ func bindingsOne(inp *bInput, relay string) (*bObs, map[string]any) {
 	in := *inp
 	sp, _ := bindingsSP(&in)
 	o := &bObs{}
+	signedDoc := len(relay)%2 == 1
 	replay := map[string]any{"relay_state": relay}
 	func() {
 		defer func() {
@@ -430,14 +431,21 @@ func bindingsOne(inp *bInput, relay string) (*bObs, map[string]any) {
 		switch in.Flow {
 		case "authn", "authnPostBinding":
 			if in.Binding == "redirect" {
-				doc, err = sp.BuildAuthRequestDocumentNoSig()
+				// the caller may hand the Redirect builders a document that already carries an enveloped signature
+				if signedDoc && in.SignReq {
+					doc, err = sp.BuildAuthRequestDocument()
+				} else {
+					doc, err = sp.BuildAuthRequestDocumentNoSig()
+				}
 			}
 		case "authURL", "authRedirect":
 			// the library builds the request itself
 		case "authnFromDoc":
 			doc, err = sp.BuildAuthRequestDocument()
 		case "logoutReq":
-			if in.Binding == "redirect" {
+			if in.Binding == "redirect" && signedDoc {
+				doc, err = sp.BuildLogoutRequestDocument("alice@example.com", "sess-1")
+			} else if in.Binding == "redirect" {
 				doc, err = sp.BuildLogoutRequestDocumentNoSig("alice@example.com", "sess-1")
 			} else {
 				doc, err = sp.BuildLogoutRequestDocument("alice@example.com", "sess-1")
